@@ -4,6 +4,8 @@ import (
 	"bytes"
 	"errors"
 	"fmt"
+	"sort"
+	"strings"
 
 	"colverif/eng"
 	"colverif/model"
@@ -218,9 +220,75 @@ func splitRows(s string) (rows []string, tail string) {
 	return rows, s[j:]
 }
 
+// rollbackBesideCommit: transaction A's insert callback fails (A rolls back) while
+// transaction B inserts and commits. Whatever the interleaving, A must leave no
+// trace: the final state is the pre-state plus exactly B's row.
+func rollbackBesideCommit(swallow bool) func() *eng.SchedInstance {
+	return func() *eng.SchedInstance {
+		sw := newSWorld(model.Config{Cols: []model.ColDef{{Name: "a", Kind: "int"}}}, []model.Write{{Col: "a", V: model.Val{N: 2}}})
+		w := sw.w
+		w.Commits, w.Emitters = nil, nil
+		pre := observe(w, false)
+		var bOff uint32
+		var bErr, aErr error
+		a := func() {
+			aErr = w.C.Query(func(txn *column.Txn) error {
+				_, err := txn.Insert(func(r column.Row) error { r.SetInt("a", 66); return errW })
+				vsched.Yield()
+				if swallow {
+					// the body goes on after the failed insert, then gives up
+					txn.QueryAt(R0, func(r column.Row) error { r.SetInt("a", 67); return nil })
+					vsched.Yield()
+				}
+				return err
+			})
+		}
+		b := func() {
+			bOff, bErr = w.C.Insert(func(r column.Row) error { r.SetInt("a", 12); return nil })
+		}
+		return &eng.SchedInstance{
+			Threads: []func(){a, b},
+			Close:   w.Close,
+			Check: func(res *vsched.Result) (string, []eng.Violation) {
+				vs := threadPanics(res, []string{"A(rollback)", "B(commit)"})
+				if len(vs) > 0 {
+					return "panic", vs
+				}
+				post := observe(w, false)
+				if aErr == nil || bErr != nil {
+					vs = append(vs, eng.Violation{Assert: "query/result", Witness: "Query result differs from the body's result", Detail: fmt.Sprintf("A returned %v, B returned %v", aErr, bErr)})
+				}
+				// expected: pre-state plus B's row
+				var c int
+				fmt.Sscanf(pre, "count=%d", &c)
+				rows, _ := splitRows(pre)
+				rows = append(rows, fmt.Sprintf("%d:a=12/true", bOff))
+				sort.Slice(rows, func(i, j int) bool {
+					var x, y int
+					fmt.Sscanf(rows[i], "%d:", &x)
+					fmt.Sscanf(rows[j], "%d:", &y)
+					return x < y
+				})
+				want := fmt.Sprintf("count=%d rows=[%s ]", c+1, strings.Join(rows, " "))
+				if post != want {
+					vs = append(vs, eng.Violation{Assert: "atomic/rollback-no-trace", Witness: "a rolled-back transaction changed what a concurrent committed transaction stored",
+						Detail: fmt.Sprintf("A's insert failed and A rolled back; B inserted a=12 at %d and committed; final %s, expected %s", bOff, post, want)})
+				}
+				return post, vs
+			},
+		}
+	}
+}
+
 func init() {
 	c02SchedUnits = func(tier string) []eng.Unit {
 		var scs []scenario
+		rb := 3
+		if tier != "quick" {
+			rb = 4
+		}
+		scs = append(scs, scenario{"failing-insert-rolls-back||insert-commits", rb, rollbackBesideCommit(false)},
+			scenario{"failing-insert+more-work-rolls-back||insert-commits", rb, rollbackBesideCommit(true)})
 		for _, sc := range c02SchedScenarios() {
 			sc := sc
 			b := 3
